@@ -50,6 +50,9 @@ def tnum(rng, v):
         (f"scale(center({v}))", "nested"), (f"center(scale({v}))", "nested"), (f"{{center({v}) * center({v})}}", "repeated"),
         (f"{{scale({v}) + {v}}}", "mixed"), (f"{{center({v}) + scale({v}) * center({v})}}", "repeated"), (f"I({v}**2)", "I"), (f"exp({v} / 100)", "exp"),
         (f"{{{v} + 1}}", "py"), (f"Q('{v}')", "Q"), (f"poly(center({v}), 2)", "nested"), (f"bs(scale({v}), df=4)", "nested"),
+        # stateful transforms applied to multi-column (dict-valued) results keep one state per column
+        (f"center(bs({v}, df=4))", "perkey"), (f"scale(bs({v}, df=3))", "perkey"), (f"scale(poly({v}, 2))", "perkey"),
+        (f"center(cr({v}, df=3))", "perkey"), (f"scale(cc({v}, df=3), ddof=0)", "perkey"),
     ]
     if pos:
         opts += [(f"log({v})", "log"), (f"log10({v})", "log"), (f"exp10({v})", "exp"), (f"scale(log({v}))", "nested")]
